@@ -44,6 +44,9 @@ fn dispatch(sim: &Sim, prop: &str, tier: Tier) -> Outcome {
         "C06" => crate::link_hostile::run_c06(sim, prop, tier),
         "C19" => crate::link_hostile::run_c19(sim, prop, tier),
         "C14" => crate::send::run(sim, prop, tier),
+        "C07" => crate::builder::run(sim, prop, tier),
+        "C01" => crate::e2e::run(sim, prop, tier),
+        "C15" | "C16" | "C17" | "C18" => crate::node::run(sim, prop, tier),
         _ => panic!("unknown property {}", prop),
     }
 }
